@@ -88,6 +88,30 @@ def remainingDefault (rl : Option Int) : Nat :=
   | some n => if n > 0 then n.toNat else 2 ^ 64 - 1     -- uint64(n), n > 0: no wrap
   | none => 2 ^ 64 - 1                                    -- ^uint64(0)
 
+/-- what `NewDefaultTransport(rw)` is given (transport.go:41-46): its type switch has exactly one
+    special case, `*bytes.Buffer`; everything else is wrapped into `defaultTransport{rw}`, whatever
+    other methods it has -/
+inductive RW where
+  /-- a `*bytes.Buffer` -/
+  | bytesBuffer (s : Buf)
+  /-- a `*bufferTransport` (what NewBufferTransport returned): an io.ReadWriter through the promoted
+      methods, NOT a `*bytes.Buffer`, no `ReadableLen` method -/
+  | bufferTransport (s : Buf)
+  /-- any other io.ReadWriter: `rl` = its `ReadableLen()` if it has that method; `own` = its own
+      `RemainingBytes()` if it happens to have the whole TTransport method set itself -/
+  | other (rl : Option Int) (own : Option Nat)
+
+/-- `NewDefaultTransport(rw).RemainingBytes()` -/
+def newDefaultRemaining : RW → Nat
+  | .bytesBuffer s => remainingBytes s          -- → NewBufferTransport(buf)
+  | .bufferTransport _ => remainingDefault none   -- wrapped; the assertion to remoteByteBuffer fails
+  | .other rl _ => remainingDefault rl            -- wrapped; `own` is never consulted
+
+/-- is the result a new `defaultTransport` wrapper around the argument (rather than the argument)? -/
+def newDefaultWraps : RW → Bool
+  | .bytesBuffer _ => false
+  | _ => true
+
 /-! ## callback registries (apache.go) -/
 
 inductive CbErr where
